@@ -1282,7 +1282,12 @@ class C12(PropOracle):
             return
         if not c.get("is_complete"):
             rec = [v for v in w.vprocs if v.name.startswith("rec")]
-            if rec and not any((w.rootp + "cluster_config.json.lock") == h for v in w.vprocs for h in v.holding) \
+            left = [v.name + ":" + (w.rel(h) or h) for v in w.vprocs if v.status == "dead" for h in v.holding]
+            if rec and any(".csv.lock" in x for x in left):
+                # a node died inside the critical section of its results file: the soft lock stays for ever
+                self.v(w, f"submission cannot complete: results lock left behind by a killed node ({left}); every later try-submit-jobs "
+                          f"times out on it (lock timeouts: {o.lock_timeouts[:2]})", "no-completion-results-lock-left")
+            elif rec and not any((w.rootp + "cluster_config.json.lock") == h for v in w.vprocs for h in v.holding) \
                     and not os.path.exists(w.rootp + "cluster_config.json.lock") and not o.lock_timeouts:
                 self.v(w, f"submission did not reach completion after the recovery rounds (faults: {w.data.get('faults')})", "no-completion")
             return
